@@ -805,7 +805,7 @@ public:
     nextStmt = 0;
     json::Object o = fnRef(FD);
     o["qnt"] = templateArgs(FD);
-    o["file"] = fileOf(FD->getLocation());
+    o["file"] = fileOf(FD->getBody() ? FD->getBody()->getBeginLoc() : FD->getLocation());
     o["line"] = lineOf(FD->getBeginLoc());
     o["endline"] = lineOf(FD->getEndLoc());
     json::Array ps;
